@@ -101,6 +101,14 @@ pub struct OutSpec {
     /// coin := min ADA computed by the library's output builder
     #[serde(default)]
     pub min_coin: bool,
+    /// 0 = the value as constructed; 1 = the output arrives through `from_bytes` in the pre-Alonzo
+    /// array form (only when it has no inline datum / script reference); 2 = through `from_bytes`
+    /// in the map form. The library remembers the form and re-serializes in it.
+    #[serde(default, skip_serializing_if = "is_zero_u8")]
+    pub form: u8,
+}
+fn is_zero_u8(x: &u8) -> bool {
+    *x == 0
 }
 
 #[derive(Serialize, Deserialize, Clone, Debug, PartialEq, Eq, Hash)]
@@ -250,6 +258,11 @@ pub enum Op {
     PresetScriptDataHash,
     Build,
     BuildTx,
+    /// read-only calls (sizes, fees, totals, collections) in the middle of a history; each is made
+    /// twice and must answer the same both times
+    Observe,
+    /// continue the history on clones of the builder and of the session's collection builders
+    ForkClone,
 }
 
 #[derive(Serialize, Deserialize, Clone, Debug)]
